@@ -891,6 +891,12 @@ func (x *exec) finish(st *State, out Outcome) {
 		se.frame = out.Fr
 		se.lenient = true
 	}
+	for _, g := range ct.Ghost {
+		if g.AtReturn {
+			se.what = "ghostcode " + g.Src
+			x.execGhost(st, g, se)
+		}
+	}
 	for _, e := range ct.Ensures {
 		se.what = "ensures " + e.Label + " of " + x.ctx.Key
 		x.oblige(st, "ensures", e.Label, "", se.evalBool(e.Expr), pos)
